@@ -5,39 +5,514 @@ open Relic
 
 /-! ### unpacking a successful `Sign` -/
 
-theorem signPlan_ok (C : Crypto) (E : Env) (f : Bytes) (hk : HK) (ki : KeyInfo) (so : SignOut)
-    (h : (signPlan E f hk ki).run C = .ok so) :
+/-- the part of `Sign` both trees share, given the prepared document -/
+theorem signPlanG_ok (fx : Bool) (C : Crypto) (E : Env) (f : Bytes) (hk : HK) (ki : KeyInfo) (so : SignOut)
+    (h : (signPlanG fx E f hk ki).run C = .ok so) :
     ∃ hd k0 t n p, parseHeader f = .ok (hd, k0) ∧ hd.clen ≤ 1000000 ∧ hd.ulen ≤ 10000000 ∧
-      E.decode (region f 28 hd.clen) = some (t, n) ∧ prep E.num hk ki t = some p ∧
-      so = ⟨hk, p.tree E.num, p.origSig, p.newSig, w64 (28 + hd.clen + p.origSig), ki.rsaSize⟩ ∧
+      E.decode (region f 28 hd.clen) = some (t, n) ∧
+      (if fx then prepFx E.num hk ki t = .ok p ∧ 0 ≤ hd.clen ∧ 0 ≤ hd.ulen ∧ (n : Int) ≤ hd.ulen ∧
+          frontCheck p.origSig (dRefs E.num none p.doc1) = none
+        else prep E.num hk ki t = some p) ∧
+      so = ⟨hk, p.tree E.num fx, p.origSig, p.newSig, w64 (28 + hd.clen + p.origSig), ki.rsaSize⟩ ∧
       (checkAllStream (f.drop (28 + hd.clen.toNat)) 0 (sortRefs (eRefs E.num p.doc1))).run C = .ok () := by
   rw [run_ok_iff] at h
   obtain ⟨hc, hf⟩ := h
-  unfold signPlan at hc hf
-  cases hp : parseHeader f with
-  | error e => simp [hp, Plan.fail] at hf
-  | ok v =>
-    obtain ⟨hd, k0⟩ := v
-    simp only [hp] at hc hf
-    by_cases hl : hd.clen > 1000000 ∨ hd.ulen > 10000000
-    · simp [hl, Plan.fail] at hf
-    · simp only [hl, ↓reduceIte] at hc hf
-      cases hz : E.decode (region f 28 hd.clen) with
-      | none => simp [hz, Plan.fail] at hf
-      | some v =>
-        obtain ⟨t, n⟩ := v
-        simp only [hz] at hc hf
-        cases hpr : prep E.num hk ki t with
-        | none => simp [hpr, Plan.fail] at hf
-        | some p =>
-          simp only [hpr] at hc hf
-          obtain ⟨u, hu1, hu2, hu3⟩ := bind_final_ok _ _ _ hf
-          refine ⟨hd, k0, t, n, p, rfl, by omega, by omega, hz, hpr, ?_, ?_⟩
-          · simpa [Plan.pure] using hu2.symm
-          · rw [run_ok_iff]
-            refine ⟨fun c hcm => hc c ?_, ?_⟩
-            · rw [hu3]; exact List.mem_append_left _ hcm
-            · cases u; exact hu1
+  cases fx with
+  | false =>
+    unfold signPlanG at hc hf
+    simp only [Bool.false_and, Bool.false_eq_true, ↓reduceIte] at hc hf ⊢
+    cases hp : parseHeader f with
+    | error e => simp [hp, Plan.fail] at hf
+    | ok v =>
+      obtain ⟨hd, k0⟩ := v
+      simp only [hp] at hc hf
+      by_cases hl : hd.clen > 1000000 ∨ hd.ulen > 10000000
+      · simp [hl, Plan.fail] at hf
+      · simp only [hl, ↓reduceIte] at hc hf
+        cases hz : E.decode (region f 28 hd.clen) with
+        | none => simp [hz, Plan.fail] at hf
+        | some v =>
+          obtain ⟨t, n⟩ := v
+          simp only [hz] at hc hf
+          cases hpr : prep E.num hk ki t with
+          | none => simp [hpr, Plan.fail] at hf
+          | some p =>
+            simp only [hpr] at hc hf
+            obtain ⟨u, hu1, hu2, hu3⟩ := bind_final_ok _ _ _ hf
+            refine ⟨hd, k0, t, n, p, rfl, by omega, by omega, hz, hpr, ?_, ?_⟩
+            · simpa [Plan.pure] using hu2.symm
+            · rw [run_ok_iff]
+              refine ⟨fun c hcm => hc c ?_, ?_⟩
+              · rw [hu3]; exact List.mem_append_left _ hcm
+              · cases u; exact hu1
+  | true =>
+    unfold signPlanG at hc hf
+    simp only [Bool.true_and, ↓reduceIte, decide_eq_true_eq] at hc hf ⊢
+    cases hp : parseHeader f with
+    | error e => simp [hp, Plan.fail] at hf
+    | ok v =>
+      obtain ⟨hd, k0⟩ := v
+      simp only [hp] at hc hf
+      by_cases hl : hd.clen > 1000000 ∨ hd.ulen > 10000000
+      · simp [hl, Plan.fail] at hf
+      · simp only [hl, ↓reduceIte] at hc hf
+        by_cases hg : hd.clen < 0 ∨ hd.ulen < 0
+        · simp [hg, Plan.fail] at hf
+        · simp only [hg, ↓reduceIte] at hc hf
+          cases hz : E.decode (region f 28 hd.clen) with
+          | none => simp [hz, Plan.fail] at hf
+          | some v =>
+            obtain ⟨t, n⟩ := v
+            simp only [hz] at hc hf
+            by_cases hin : (n : Int) > hd.ulen
+            · simp [hin, Plan.fail] at hf
+            · simp only [hin, ↓reduceIte] at hc hf
+              cases hpr : prepFx E.num hk ki t with
+              | error e => simp [hpr, Plan.fail] at hf
+              | ok p =>
+                simp only [hpr] at hc hf
+                cases hfc : frontCheck p.origSig (dRefs E.num none p.doc1) with
+                | some e => simp [hfc, Plan.fail] at hf
+                | none =>
+                  simp only [hfc] at hc hf
+                  obtain ⟨u, hu1, hu2, hu3⟩ := bind_final_ok _ _ _ hf
+                  refine ⟨hd, k0, t, n, p, rfl, by omega, by omega, hz, ⟨hpr, by omega, by omega, by omega, hfc⟩, ?_, ?_⟩
+                  · simpa [Plan.pure] using hu2.symm
+                  · rw [run_ok_iff]
+                    refine ⟨fun c hcm => hc c ?_, ?_⟩
+                    · rw [hu3]; exact List.mem_append_left _ hcm
+                    · cases u; exact hu1
+
+/-! ### `Sign` ends in ok or in an error -/
+
+theorem checkFileStream_final (heap : Bytes) (pos : Nat) (r : Ref) :
+    (∃ e, (checkFileStream heap pos r).final = .err e) ∨ ∃ p, (checkFileStream heap pos r).final = .ok p := by
+  unfold checkFileStream
+  split
+  · exact Or.inl ⟨_, rfl⟩
+  · split
+    · exact Or.inl ⟨_, rfl⟩
+    · split
+      · exact Or.inl ⟨_, rfl⟩
+      · split
+        · exact Or.inr ⟨_, rfl⟩
+        · split
+          · exact Or.inl ⟨_, rfl⟩
+          · split
+            · exact Or.inr ⟨_, rfl⟩
+            · exact Or.inl ⟨_, rfl⟩
+
+theorem checkAllStream_final (heap : Bytes) : ∀ rs pos, (∃ e, (checkAllStream heap pos rs).final = .err e) ∨ (checkAllStream heap pos rs).final = .ok ()
+  | [], _ => Or.inr rfl
+  | r :: rs, pos => by
+    simp only [checkAllStream, Plan.bind]
+    rcases checkFileStream_final heap pos r with ⟨e, h⟩ | ⟨p, h⟩
+    · rw [h]; exact Or.inl ⟨e, rfl⟩
+    · rw [h]; exact checkAllStream_final heap rs p
+
+/-- both trees: `Sign` up to the signature computation returns ok or err on every input -/
+theorem signPlanG_final (fx : Bool) (E : Env) (f : Bytes) (hk : HK) (ki : KeyInfo) :
+    (∃ so, (signPlanG fx E f hk ki).final = .ok so) ∨ ∃ e, (signPlanG fx E f hk ki).final = .err e := by
+  unfold signPlanG
+  split
+  · exact Or.inr ⟨_, rfl⟩
+  · split
+    · exact Or.inr ⟨_, rfl⟩
+    · split
+      · exact Or.inr ⟨_, rfl⟩
+      · split
+        · exact Or.inr ⟨_, rfl⟩
+        · split
+          · exact Or.inr ⟨_, rfl⟩
+          · split
+            · exact Or.inr ⟨_, rfl⟩
+            · split
+              · exact Or.inr ⟨_, rfl⟩
+              · simp only [Plan.bind]
+                rcases checkAllStream_final (f.drop _) (sortRefs (eRefs E.num _)) 0 with ⟨e, h⟩ | h
+                · rw [h]; exact Or.inr ⟨e, rfl⟩
+                · rw [h]; exact Or.inl ⟨_, rfl⟩
+
+/-! ### the tests of the repaired `Sign` -/
+
+theorem prepFx_ok (N : Num) (hk : HK) (ki : KeyInfo) (t : Xml) (p : Prep) (h : prepFx N hk ki t = .ok p) :
+    ∃ p0 tks s, prep N hk ki t = some p0 ∧ tocKids t = some tks ∧ checkSigAreas N tks = .ok s ∧
+      p = { p0 with origSig := s } := by
+  unfold prepFx at h
+  cases hp : prep N hk ki t with
+  | none => simp [hp] at h
+  | some p0 =>
+    cases ht : tocKids t with
+    | none => simp [hp, ht] at h
+    | some tks =>
+      simp only [hp, ht] at h
+      cases hc : checkSigAreas N tks with
+      | error e => simp [hc] at h
+      | ok s =>
+        simp only [hc, Except.ok.injEq] at h
+        exact ⟨p0, tks, s, rfl, rfl, hc, h.symm⟩
+
+theorem mem_insertArea (a x : Int × Int) : ∀ l, x ∈ insertArea a l ↔ x = a ∨ x ∈ l
+  | [] => by simp [insertArea]
+  | y :: ys => by
+    simp only [insertArea]
+    split
+    · simp
+    · simp only [List.mem_cons, mem_insertArea a x ys]
+      constructor
+      · rintro (h | h | h) <;> simp [h]
+      · rintro (h | h | h) <;> simp [h]
+
+theorem mem_sortAreas (x : Int × Int) (as : List (Int × Int)) : x ∈ sortAreas as ↔ x ∈ as := by
+  unfold sortAreas
+  suffices ∀ acc, x ∈ as.foldl (fun acc a => insertArea a acc) acc ↔ x ∈ acc ∨ x ∈ as by simpa using this []
+  induction as with
+  | nil => simp
+  | cons r rs ih =>
+    intro acc
+    simp only [List.foldl_cons, ih, mem_insertArea, List.mem_cons]
+    constructor
+    · rintro ((h | h) | h) <;> simp [h]
+    · rintro (h | h | h) <;> simp [h]
+
+theorem tile_ge : ∀ (as : List (Int × Int)) (s0 s : Int), tile s0 as = some s → (∀ a ∈ as, 0 ≤ a.2) → s0 ≤ s
+  | [], s0, s, h, _ => by simp [tile] at h; omega
+  | a :: r, s0, s, h, hn => by
+    simp only [tile] at h
+    split at h
+    · cases h
+    · have := tile_ge r (s0 + a.2) s h fun x hx => hn x (List.mem_cons_of_mem _ hx)
+      have := hn a List.mem_cons_self
+      omega
+
+theorem areaOf_nonneg (N : Num) (ks : List Xml) (a : Int × Int) (h : areaOf N ks = some a) : 0 ≤ a.2 ∧ a.2 ≤ 1000000 ∧ 0 ≤ a.1 := by
+  unfold areaOf at h
+  simp only at h
+  split at h
+  · rename_i hc
+    simp only [Option.some.injEq] at h
+    subst h
+    exact ⟨hc.2.2.1, hc.2.2.2.1, hc.2.2.2.2⟩
+  · cases h
+
+theorem areasOfKey_nonneg (N : Num) (key : String) : ∀ (ks : List Xml) (as : List (Int × Int)), areasOfKey N key ks = some as →
+    ∀ a ∈ as, 0 ≤ a.2
+  | [], as, h, a, ha => by simp [areasOfKey] at h; subst h; simp at ha
+  | .tx _ :: rest, as, h, a, ha => by simp only [areasOfKey] at h; exact areasOfKey_nonneg N key rest as h a ha
+  | .el n _ ks :: rest, as, h, a, ha => by
+    simp only [areasOfKey] at h
+    split at h
+    · cases h1 : areaOf N ks with
+      | none => simp [h1] at h
+      | some a1 =>
+        cases h2 : areasOfKey N key rest with
+        | none => simp [h1, h2] at h
+        | some as2 =>
+          simp only [h1, h2, Option.bind_some, Option.map_some, Option.some.injEq] at h
+          subst h
+          simp only [List.mem_cons] at ha
+          rcases ha with rfl | ha
+          · exact (areaOf_nonneg N ks _ h1).1
+          · exact areasOfKey_nonneg N key rest as2 h2 a ha
+    · exact areasOfKey_nonneg N key rest as h a ha
+
+/-- the size the repaired `removeSigs` returns is not negative -/
+theorem checkSigAreas_nonneg (N : Num) (ks : List Xml) (s : Int) (h : checkSigAreas N ks = .ok s) : 0 ≤ s := by
+  unfold checkSigAreas at h
+  cases h1 : sigAreas N ks with
+  | none => simp [h1] at h
+  | some as =>
+    simp only [h1] at h
+    cases h2 : tile 0 (sortAreas as) with
+    | none => simp [h2] at h
+    | some s' =>
+      simp only [h2, Except.ok.injEq] at h
+      subst h
+      apply tile_ge _ 0 _ h2
+      intro a ha
+      rw [mem_sortAreas] at ha
+      unfold sigAreas at h1
+      cases ha1 : areasOfKey N "checksum" ks with
+      | none => simp [ha1] at h1
+      | some a1 =>
+        cases ha2 : areasOfKey N "signature" ks with
+        | none => simp [ha1, ha2] at h1
+        | some a2 =>
+          cases ha3 : areasOfKey N "x-signature" ks with
+          | none => simp [ha1, ha2, ha3] at h1
+          | some a3 =>
+            simp only [ha1, ha2, ha3, Option.bind_some, Option.map_some, Option.some.injEq] at h1
+            subst h1
+            simp only [List.mem_append] at ha
+            rcases ha with (ha | ha) | ha
+            · exact areasOfKey_nonneg N _ ks a1 ha1 a ha
+            · exact areasOfKey_nonneg N _ ks a2 ha2 a ha
+            · exact areasOfKey_nonneg N _ ks a3 ha3 a ha
+
+/-! #### the repaired `removeSigs` returns what the old one summed -/
+
+def sumA : List (Int × Int) → Int
+  | [] => 0
+  | a :: r => a.2 + sumA r
+
+theorem sumA_append : ∀ (a b : List (Int × Int)), sumA (a ++ b) = sumA a + sumA b
+  | [], b => by simp [sumA]
+  | x :: a, b => by simp only [List.cons_append, sumA, sumA_append a b]; omega
+
+theorem tile_sum : ∀ (as : List (Int × Int)) (s0 s : Int), tile s0 as = some s → s = s0 + sumA as
+  | [], s0, s, h => by simp [tile] at h; simp [sumA]; omega
+  | a :: r, s0, s, h => by
+    simp only [tile] at h
+    split at h
+    · cases h
+    · have := tile_sum r (s0 + a.2) s h
+      simp only [sumA]; omega
+
+theorem sumA_insertArea (a : Int × Int) : ∀ l, sumA (insertArea a l) = a.2 + sumA l
+  | [] => rfl
+  | x :: xs => by
+    simp only [insertArea]
+    split
+    · rfl
+    · simp only [sumA, sumA_insertArea a xs]; omega
+
+theorem sumA_sortAreas (as : List (Int × Int)) : sumA (sortAreas as) = sumA as := by
+  unfold sortAreas
+  suffices ∀ acc : List (Int × Int), sumA (as.foldl (fun acc a => insertArea a acc) acc) = sumA acc + sumA as by
+    simpa [sumA] using this []
+  induction as with
+  | nil => intro acc; simp [sumA]
+  | cons a as ih => intro acc; simp only [List.foldl_cons, ih, sumA_insertArea, sumA]; omega
+
+theorem areaOf_size (N : Num) (hN : N.Laws) (ks : List Xml) (a : Int × Int) (h : areaOf N ks = some a) : sizeOfSigEl N ks = a.2 := by
+  unfold areaOf at h
+  simp only at h
+  split at h
+  · rename_i hc
+    simp only [Option.some.injEq] at h
+    subst h
+    unfold sizeOfSigEl
+    unfold fieldOf at hc ⊢
+    cases hf : first "size" ks with
+    | none =>
+      simp only [hf] at hc
+      have := hN.empty
+      rw [this] at hc
+      exact absurd hc.1 (by simp)
+    | some se => rfl
+  · cases h
+
+theorem removeSigs_sum (N : Num) (hN : N.Laws) : ∀ (ks : List Xml) (a b c : List (Int × Int)),
+    areasOfKey N "checksum" ks = some a → areasOfKey N "signature" ks = some b → areasOfKey N "x-signature" ks = some c →
+    (removeSigs N ks).1 = sumA a + sumA b + sumA c
+  | [], a, b, c, ha, hb, hc => by
+    simp only [areasOfKey, Option.some.injEq] at ha hb hc
+    subst ha hb hc
+    simp [removeSigs, sumA]
+  | .tx _ :: rest, a, b, c, ha, hb, hc => by
+    simp only [areasOfKey] at ha hb hc
+    simp only [removeSigs]
+    exact removeSigs_sum N hN rest a b c ha hb hc
+  | .el n as ks :: rest, a, b, c, ha, hb, hc => by
+    simp only [areasOfKey] at ha hb hc
+    simp only [removeSigs]
+    by_cases h1 : n = "checksum"
+    · subst h1
+      simp only [↓reduceIte, (by decide : ¬ "checksum" = "signature"), (by decide : ¬ "checksum" = "x-signature")] at ha hb hc
+      cases hao : areaOf N ks with
+      | none => simp [hao] at ha
+      | some a1 =>
+        cases har : areasOfKey N "checksum" rest with
+        | none => simp [hao, har] at ha
+        | some a2 =>
+          simp only [hao, har, Option.bind_some, Option.map_some, Option.some.injEq] at ha
+          subst ha
+          have ih := removeSigs_sum N hN rest a2 b c har hb hc
+          have := areaOf_size N hN ks a1 hao
+          simp only [isSigName, decide_true, Bool.true_or, ↓reduceIte, sumA, this, ih]
+          omega
+    · by_cases h2 : n = "signature"
+      · subst h2
+        simp only [↓reduceIte, (by decide : ¬ "signature" = "checksum"), (by decide : ¬ "signature" = "x-signature")] at ha hb hc
+        cases hao : areaOf N ks with
+        | none => simp [hao] at hb
+        | some a1 =>
+          cases har : areasOfKey N "signature" rest with
+          | none => simp [hao, har] at hb
+          | some a2 =>
+            simp only [hao, har, Option.bind_some, Option.map_some, Option.some.injEq] at hb
+            subst hb
+            have ih := removeSigs_sum N hN rest a a2 c ha har hc
+            have := areaOf_size N hN ks a1 hao
+            simp only [isSigName, decide_true, Bool.true_or, Bool.or_true, ↓reduceIte, sumA, this, ih]
+            omega
+      · by_cases h3 : n = "x-signature"
+        · subst h3
+          simp only [↓reduceIte, (by decide : ¬ "x-signature" = "checksum"), (by decide : ¬ "x-signature" = "signature")] at ha hb hc
+          cases hao : areaOf N ks with
+          | none => simp [hao] at hc
+          | some a1 =>
+            cases har : areasOfKey N "x-signature" rest with
+            | none => simp [hao, har] at hc
+            | some a2 =>
+              simp only [hao, har, Option.bind_some, Option.map_some, Option.some.injEq] at hc
+              subst hc
+              have ih := removeSigs_sum N hN rest a b a2 ha hb har
+              have := areaOf_size N hN ks a1 hao
+              simp only [isSigName, decide_true, Bool.or_true, ↓reduceIte, sumA, this, ih]
+              omega
+        · simp only [h1, h2, h3, ↓reduceIte] at ha hb hc
+          have ih := removeSigs_sum N hN rest a b c ha hb hc
+          simp [isSigName, h1, h2, h3, ih]
+
+/-- **checkSigAreas_eq_sum.**  When the repaired `removeSigs` accepts the old signature elements, the size it returns is the sum
+    of their `<size>` values — what the original `removeSigs` summed. -/
+theorem checkSigAreas_eq_sum (N : Num) (hN : N.Laws) (ks : List Xml) (s : Int) (h : checkSigAreas N ks = .ok s) :
+    s = (removeSigs N ks).1 := by
+  unfold checkSigAreas at h
+  cases h1 : sigAreas N ks with
+  | none => simp [h1] at h
+  | some as =>
+    simp only [h1] at h
+    cases h2 : tile 0 (sortAreas as) with
+    | none => simp [h2] at h
+    | some s' =>
+      simp only [h2, Except.ok.injEq] at h
+      subst h
+      have e := tile_sum _ 0 _ h2
+      rw [sumA_sortAreas] at e
+      unfold sigAreas at h1
+      cases ha1 : areasOfKey N "checksum" ks with
+      | none => simp [ha1] at h1
+      | some a1 =>
+        cases ha2 : areasOfKey N "signature" ks with
+        | none => simp [ha1, ha2] at h1
+        | some a2 =>
+          cases ha3 : areasOfKey N "x-signature" ks with
+          | none => simp [ha1, ha2, ha3] at h1
+          | some a3 =>
+            simp only [ha1, ha2, ha3, Option.bind_some, Option.map_some, Option.some.injEq] at h1
+            subst h1
+            rw [removeSigs_sum N hN ks a1 a2 a3 ha1 ha2 ha3, e, sumA_append, sumA_append]
+            omega
+
+/-! #### what `Sign` itself reserved passes the tiling test of the next `Sign` -/
+
+theorem areasOfKey_append (N : Num) (key : String) : ∀ (a b : List Xml), areasOfKey N key (a ++ b) =
+    (areasOfKey N key a).bind fun x => (areasOfKey N key b).map (x ++ ·)
+  | [], b => by cases h : areasOfKey N key b <;> simp [areasOfKey, h]
+  | .tx _ :: a, b => by simp only [List.cons_append, areasOfKey]; exact areasOfKey_append N key a b
+  | .el n _ ks :: a, b => by
+    simp only [List.cons_append, areasOfKey]
+    split
+    · rw [areasOfKey_append N key a b]
+      cases areaOf N ks <;> cases areasOfKey N key a <;> cases areasOfKey N key b <;> simp
+    · exact areasOfKey_append N key a b
+
+theorem areasOfKey_nosig (N : Num) (key : String) (hkey : isSigName key = true) : ∀ (b : List Xml), (∀ k ∈ b, k.isSig = false) →
+    areasOfKey N key b = some []
+  | [], _ => rfl
+  | .tx _ :: b, h => by
+    simp only [areasOfKey]
+    exact areasOfKey_nosig N key hkey b fun k hk => h k (List.mem_cons_of_mem _ hk)
+  | .el n _ ks :: b, h => by
+    have h1 : isSigName n = false := by simpa [Xml.isSig] using h _ List.mem_cons_self
+    have hne : ¬ n = key := by intro e; subst e; rw [hkey] at h1; cases h1
+    simp only [areasOfKey, hne, ↓reduceIte]
+    exact areasOfKey_nosig N key hkey b fun k hk => h k (List.mem_cons_of_mem _ hk)
+
+theorem areaOf_newSigElement (N : Num) (hN : N.Laws) (key style : String) (o sz : Int) (cs : Option (List String))
+    (h1 : inI64 o) (h2 : 0 ≤ sz) (h3 : sz ≤ 1000000) (h4 : 0 ≤ o) :
+    areaOf N (newSigElement N key style o sz cs).kids = some (o, sz) := by
+  have i2 : inI64 sz := by unfold inI64; omega
+  cases cs <;> simp [newSigElement, areaOf, fieldOf, first, Xml.kids, Xml.isEl, etext, hN.rt sz i2, hN.rt o h1, h2, h3, h4]
+
+/-- the key's blobs fit the limit the repaired `removeSigs` puts on a `<size>` -/
+def KeyInfo.fits (ki : KeyInfo) : Prop := 6144 + ki.derTotal ≤ 1000000 ∧ ∀ n, ki.rsaSize = some n → n ≤ 1000000
+
+/-- **checkSigAreas_reserve.**  The elements `reserveSignatures` writes, followed by children that are not signature
+    elements, pass the tiling test, and the size found is the reserved space. -/
+theorem checkSigAreas_reserve (N : Num) (hN : N.Laws) (hk : HK) (ki : KeyInfo) (hfit : ki.fits) (rest : List Xml)
+    (hrest : ∀ k ∈ rest, k.isSig = false) : checkSigAreas N ((reserve N hk ki).1 ++ rest) = .ok (reserve N hk ki).2 := by
+  have hs := hk.size_le
+  obtain ⟨hd, hr⟩ := hfit
+  have r1 := areasOfKey_nosig N "checksum" (by decide) rest hrest
+  have r2 := areasOfKey_nosig N "signature" (by decide) rest hrest
+  have r3 := areasOfKey_nosig N "x-signature" (by decide) rest hrest
+  have i1 : inI64 (hk.size : Int) := by unfold inI64; omega
+  have i0 : inI64 (0 : Int) := by unfold inI64; omega
+  unfold checkSigAreas sigAreas
+  simp only [areasOfKey_append, r1, r2, r3]
+  unfold reserve
+  cases hrs : ki.rsaSize with
+  | none =>
+    simp only []
+    obtain ⟨_, b1⟩ := sizeOf_newSigElement N hN "checksum" hk.name 0 hk.size none i1
+    obtain ⟨_, b3⟩ := sizeOf_newSigElement N hN "x-signature" "CMS" hk.size (6144 + ki.derTotal) (some ki.certTexts) (by unfold inI64; omega)
+    have a1 := areaOf_newSigElement N hN "checksum" hk.name 0 hk.size none i0 (by omega) (by omega) (by omega)
+    have a3 := areaOf_newSigElement N hN "x-signature" "CMS" hk.size (6144 + ki.derTotal) (some ki.certTexts) i1 (by omega) (by omega) (by omega)
+    rw [b1, b3]
+    simp only [areasOfKey, a1, a3, (by decide : ¬ "checksum" = "signature"), (by decide : ¬ "checksum" = "x-signature"),
+      (by decide : ¬ "x-signature" = "checksum"), (by decide : ¬ "x-signature" = "signature"), ↓reduceIte,
+      Option.bind_some, Option.map_some, List.append_nil, List.nil_append, List.cons_append]
+    have hlt : ¬ ((hk.size : Int) < 0) := by omega
+    simp [sortAreas, insertArea, tile, hlt]
+  | some n =>
+    have hn := hr n hrs
+    have i2 : inI64 (n : Int) := by unfold inI64; omega
+    simp only []
+    obtain ⟨_, b1⟩ := sizeOf_newSigElement N hN "checksum" hk.name 0 hk.size none i1
+    obtain ⟨_, b2⟩ := sizeOf_newSigElement N hN "signature" "RSA" hk.size n (some ki.certTexts) i2
+    obtain ⟨_, b3⟩ := sizeOf_newSigElement N hN "x-signature" "CMS" (hk.size + n) (6144 + ki.derTotal) (some ki.certTexts) (by unfold inI64; omega)
+    have a1 := areaOf_newSigElement N hN "checksum" hk.name 0 hk.size none i0 (by omega) (by omega) (by omega)
+    have a2 := areaOf_newSigElement N hN "signature" "RSA" hk.size n (some ki.certTexts) i1 (by omega) (by omega) (by omega)
+    have a3 := areaOf_newSigElement N hN "x-signature" "CMS" (hk.size + n) (6144 + ki.derTotal) (some ki.certTexts)
+      (by unfold inI64; omega) (by omega) (by omega) (by omega)
+    rw [b1, b2, b3]
+    simp only [areasOfKey, a1, a2, a3, (by decide : ¬ "checksum" = "signature"), (by decide : ¬ "checksum" = "x-signature"),
+      (by decide : ¬ "x-signature" = "checksum"), (by decide : ¬ "x-signature" = "signature"),
+      (by decide : ¬ "signature" = "checksum"), (by decide : ¬ "signature" = "x-signature"), ↓reduceIte,
+      Option.bind_some, Option.map_some, List.append_nil, List.nil_append, List.cons_append]
+    have hlt : ¬ ((hk.size : Int) < 0) := by omega
+    have hlt2 : ¬ ((hk.size : Int) + n < 0) := by omega
+    have hlt3 : ¬ ((hk.size : Int) + n < hk.size) := by omega
+    simp [sortAreas, insertArea, tile, hlt, hlt2, hlt3]
+
+/-- the `<toc>` children of what `Sign` serialises pass the tiling test of the next `Sign`, with the reserved space as result -/
+theorem tree_checkSigAreas (N : Num) (ea : Bool) (hN : N.Laws) (hk : HK) (ki : KeyInfo) (hfit : ki.fits) (t : Xml) (p : Prep)
+    (e : prep N hk ki t = some p) : ∃ tks', tocKids (p.tree N ea) = some tks' ∧ checkSigAreas N tks' = .ok p.newSig := by
+  obtain ⟨ras, pre, tas, tks, post, rfl, hp, rfl⟩ := prep_some N hk ki t p e
+  have hpre : ∀ d, ∀ k ∈ adjustKids N ea d false pre, k.isEl "toc" = false := fun d => isEl_adjustKids_false N ea d false "toc" pre hp
+  refine ⟨(reserve N hk ki).1 ++ adjustKids N ea (w64 ((reserve N hk ki).2 - w64 (removeSigs N tks).1)) false (removeSigs N tks).2, ?_, ?_⟩
+  · simp only [Prep.tree, adjust_doc, adjustKids_append, adjustKids_noRef N ea _ _ (noRefL_reserve N ea hk ki)]
+    exact tocKids_build _ _ _ _ _ (hpre _)
+  · apply checkSigAreas_reserve N hN hk ki hfit
+    intro k hk'
+    have h0 := removeSigs_adjustKids N ea (w64 ((reserve N hk ki).2 - w64 (removeSigs N tks).1)) (removeSigs N tks).2
+    rw [removeSigs_nosig N _ (removeSigs_snd_nosig N tks)] at h0
+    have := removeSigs_snd_nosig N (adjustKids N ea (w64 ((reserve N hk ki).2 - w64 (removeSigs N tks).1)) false (removeSigs N tks).2) k
+    rw [h0] at this
+    exact this hk'
+
+theorem frontCheck_none (o : Int) : ∀ ds : List DRef, frontCheck o ds = none →
+    ∀ d ∈ ds, d.length ≠ 0 → o ≤ d.offset ∧ d.sum ≠ none
+  | [], _, d, hd, _ => by simp at hd
+  | x :: xs, h, d, hd, hl => by
+    simp only [frontCheck] at h
+    split at h
+    · cases h
+    · rename_i h1
+      split at h
+      · cases h
+      · rename_i h2
+        simp only [List.mem_cons] at hd
+        rcases hd with rfl | hd
+        · refine ⟨?_, ?_⟩
+          · by_cases hlt : d.offset < o
+            · exact absurd ⟨hl, hlt⟩ h1
+            · omega
+          · intro hs; exact h2 ⟨hs, hl⟩
+        · exact frontCheck_none o xs h d hd hl
 
 /-! ### the sorted list has the same elements -/
 
@@ -277,12 +752,6 @@ theorem regularDoc_shape (N : Num) (t : Xml) (h : regularDoc N t = true) :
 
 /-! ### sign, apply, verify -/
 
-/-- what the heap ranges of the input must satisfy for `Sign` to be expected to produce a verifiable package -/
-structure MembersOk (x0 : XToc) (origSig : Int) (flen : Nat) : Prop where
-  sane : ∀ b ∈ flatXs x0.files, 0 ≤ b.offset ∧ 0 ≤ b.length ∧ b.offset + b.length < 2 ^ 60
-  front : ∀ b ∈ flatXs x0.files, b.length ≠ 0 → origSig ≤ b.offset
-  small : flen < 2 ^ 60
-
 theorem newBytes_some (C : Crypto) (E : Env) (so : SignOut) (rsa cms body : Bytes) (h : newBytes C E so rsa cms = some body) :
     (so.hk.size + rsa.length + cms.length : Int) ≤ so.newSig ∧
     body = (newHdr so.hk (E.encode so.tree).1.length (E.encode so.tree).2).enc ++ (E.encode so.tree).1 ++
@@ -377,89 +846,70 @@ theorem tocRegion_layout (C : Crypto) (hk : HK) (z : Bytes) (u : Nat) (rsa cmsAr
           · simp only [Int.toNat_natCast]
             exact sl_cat _ z _ 28 z.length (by simp [Hdr.enc_length]) rfl
 
-/-- **Sign, apply, verify (core).**  See `Relic.Props.C01.xar_sign_then_verify`. -/
-theorem sign_then_verify_core (C : Crypto) (E : Env) (hE : E.Laws) (hH : ∀ k b, (C.H k b).length = k.size)
-    (f : Bytes) (hk : HK) (ki : KeyInfo) (hki : ki.small) (so : SignOut) (rsa cms body : Bytes)
-    (hs : (signPlan E f hk ki).run C = .ok so)
-    (hb : newBytes C E so rsa cms = some body)
+/-- **Sign, apply, verify (core, both trees).**  `p0` is the prepared document, `s` the old signature size the signer worked
+    with; the facts the repaired signer establishes itself (`hmem`, `h0`, `hcl`) are hypotheses here. -/
+theorem verify_written (fx : Bool) (C : Crypto) (E : Env) (hE : E.Laws) (hH : ∀ k b, (C.H k b).length = k.size)
+    (f : Bytes) (hk : HK) (ki : KeyInfo) (hki : ki.small) (rsa cms body : Bytes)
+    (hd : Hdr) (k0 : HK) (t : Xml) (n : Nat) (x0 : XToc) (p0 : Prep) (s : Int)
+    (hp : parseHeader f = .ok (hd, k0))
+    (hprep : prep E.num hk ki t = some p0)
+    (hstream : (checkAllStream (f.drop (28 + hd.clen.toNat)) 0 (sortRefs (eRefs E.num p0.doc1))).run C = .ok ())
+    (hb : newBytes C E ⟨hk, adjust E.num fx (w64 (p0.newSig - s)) false p0.doc1, s, p0.newSig, w64 (28 + hd.clen + s), ki.rsaSize⟩ rsa cms = some body)
     (hrsa : rsa.length = ki.rsaSize.getD 0)
     (hc1 : ki.certTexts ≠ []) (hc2 : ∀ c ∈ ki.certTexts, E.certOk c = true)
-    (hcms : C.cmsOk (cms ++ zeros (so.newSig.toNat - (so.hk.size + rsa.length + cms.length))) (C.H hk (E.encode so.tree).1) = true)
-    (hd : Hdr) (k0 : HK) (t : Xml) (n : Nat) (x0 : XToc)
-    (hp : parseHeader f = .ok (hd, k0)) (hdec : E.decode (region f 28 hd.clen) = some (t, n))
+    (hcms : C.cmsOk (cms ++ zeros (p0.newSig.toNat - (hk.size + rsa.length + cms.length)))
+      (C.H hk (E.encode (adjust E.num fx (w64 (p0.newSig - s)) false p0.doc1)).1) = true)
     (hreg : regularDoc E.num t = true) (hu : unmarshal E.num t = some x0)
-    (hsum : ∀ p, prep E.num hk ki t = some p → ∀ d ∈ dRefs E.num none p.doc1, d.length ≠ 0 → d.sum ≠ none)
-    (hm : MembersOk x0 so.origSig f.length) (h0 : 0 ≤ so.origSig) (hcl : 0 ≤ hd.clen)
-    (h1 : 28 + hd.clen + so.origSig ≤ f.length)
-    (hzl : (E.encode so.tree).1.length < 2 ^ 40) (hul : (E.encode so.tree).2 < 2 ^ 63) :
-    ∃ v, (verifyPlan E (written f so.origTotal body) false).run C = .ok v ∧ v.hk = hk := by
-  obtain ⟨hd', k0', t', n', p, hp', _, _, hdec', hprep, hso, hstream⟩ := signPlan_ok C E f hk ki so hs
-  rw [hp] at hp'
-  simp only [Except.ok.injEq, Prod.mk.injEq] at hp'
-  obtain ⟨rfl, rfl⟩ := hp'
-  rw [hdec] at hdec'
-  simp only [Option.some.injEq, Prod.mk.injEq] at hdec'
-  obtain ⟨rfl, rfl⟩ := hdec'
-  subst hso
-  simp only at hb hcms hm h0 h1 hzl hul ⊢
+    (hmem : ∀ d ∈ dRefs E.num none p0.doc1, d.length ≠ 0 → s ≤ d.offset ∧ d.sum ≠ none)
+    (h0 : 0 ≤ s) (hcl : 0 ≤ hd.clen) (h1 : 28 + hd.clen + s ≤ f.length) (hfl : f.length < 2 ^ 60)
+    (hzl : (E.encode (adjust E.num fx (w64 (p0.newSig - s)) false p0.doc1)).1.length < 2 ^ 40)
+    (hul : (E.encode (adjust E.num fx (w64 (p0.newSig - s)) false p0.doc1)).2 ≤ 100000000) :
+    ∃ v, (verifyPlanG fx E (written f (w64 (28 + hd.clen + s)) body) false).run C = .ok v ∧ v.hk = hk := by
   -- the document and what `encoding/xml` reads from it
   have hshape := regularDoc_shape E.num t hreg
-  have hus := unmarshal_signed E.num hE.num hk ki hki t p x0 hprep hu hshape
-  obtain ⟨ras, pre, tas, tks, post, ht, hpre, hpeq⟩ := prep_some E.num hk ki _ p hprep
+  have hus := unmarshal_shifted E.num fx hE.num hk ki hki t p0 x0 (w64 (p0.newSig - s)) hprep hu hshape
+  obtain ⟨ras, pre, tas, tks, post, ht, hpre, hpeq⟩ := prep_some E.num hk ki _ p0 hprep
   subst ht
   obtain ⟨hpost, hrk⟩ := hshape ras pre tas tks post rfl hpre
-  have hPn : p.newSig = (reserve E.num hk ki).2 := by rw [hpeq]
-  have hPd : p.doc1 = .el "xar" ras (pre ++ .el "toc" tas ((reserve E.num hk ki).1 ++ (removeSigs E.num tks).2) :: post) := by rw [hpeq]
-  obtain ⟨nn, hdz⟩ := hE.dec_enc (p.tree E.num)
+  have hPn : p0.newSig = (reserve E.num hk ki).2 := by rw [hpeq]
+  have hPd : p0.doc1 = .el "xar" ras (pre ++ .el "toc" tas ((reserve E.num hk ki).1 ++ (removeSigs E.num tks).2) :: post) := by rw [hpeq]
+  generalize htree : adjust E.num fx (w64 (p0.newSig - s)) false p0.doc1 = tree at *
+  have hdz := hE.dec_enc tree
   -- sizes
   have hrb := reserve_size_bounds E.num hk ki hki
   have hrs := reserve_snd E.num hk ki
   obtain ⟨hfit, hbody⟩ := newBytes_some C E _ rsa cms body hb
   simp only at hfit hbody
   have hsz := hk.size_le
-  have hsmall := hm.small
   -- the origin of the old signature area
-  have hot : w64 (28 + hd.clen + p.origSig) = 28 + hd.clen + p.origSig := w64_id (by unfold inI64; omega)
-  have hδ : w64 (p.newSig - p.origSig) = p.newSig - p.origSig := w64_id (by unfold inI64; omega)
+  have hot : w64 (28 + hd.clen + s) = 28 + hd.clen + s := w64_id (by unfold inI64; omega)
+  have hδ : w64 (p0.newSig - s) = p0.newSig - s := w64_id (by unfold inI64; omega)
   -- the written file
-  have hg : written f (w64 (28 + hd.clen + p.origSig)) body =
-      layout C hk (E.encode (p.tree E.num)).1 (E.encode (p.tree E.num)).2 rsa
-        (cms ++ zeros (p.newSig.toNat - (hk.size + rsa.length + cms.length))) (f.drop (28 + hd.clen + p.origSig).toNat) := by
+  have hg : written f (w64 (28 + hd.clen + s)) body =
+      layout C hk (E.encode tree).1 (E.encode tree).2 rsa
+        (cms ++ zeros (p0.newSig.toNat - (hk.size + rsa.length + cms.length))) (f.drop (28 + hd.clen + s).toNat) := by
     rw [hot]
     simp [written, hbody, layout, List.append_assoc]
-  have hcmsl : ((cms ++ zeros (p.newSig.toNat - (hk.size + rsa.length + cms.length))).length : Int) = 6144 + ki.derTotal := by
+  have hcmsl : ((cms ++ zeros (p0.newSig.toNat - (hk.size + rsa.length + cms.length))).length : Int) = 6144 + ki.derTotal := by
     simp only [List.length_append, zeros, List.length_replicate]
     omega
-  -- the shifted files are sane
-  have hflat : ∀ b' ∈ flatXs (shiftXs (w64 (p.newSig - p.origSig)) x0.files), w64 (b'.offset + b'.length) ≤ 2 ^ 60 + 2 ^ 34 := by
-    intro b' hb'
-    rw [flatXs_shift, List.mem_map] at hb'
-    obtain ⟨b, hbm, rfl⟩ := hb'
-    obtain ⟨s1, s2, s3⟩ := hm.sane b hbm
-    unfold FileAcc.shiftIf FileAcc.shift
-    split
-    · simp only [hδ]
-      have hw : w64 (b.offset + (p.newSig - p.origSig)) = b.offset + (p.newSig - p.origSig) := w64_id (by unfold inI64; omega)
-      rw [hw, w64_id (by unfold inI64; omega)]; omega
-    · rw [w64_id (by unfold inI64; omega)]; omega
-  have hL := lastOffset_le (2 ^ 60 + 2 ^ 34) (by omega) _ hflat
-  have hglen : (layout C hk (E.encode (p.tree E.num)).1 (E.encode (p.tree E.num)).2 rsa
-      (cms ++ zeros (p.newSig.toNat - (hk.size + rsa.length + cms.length)))
-      (f.drop (28 + hd.clen + p.origSig).toNat)).length < 2 ^ 62 := by
+  have hglen : (layout C hk (E.encode tree).1 (E.encode tree).2 rsa
+      (cms ++ zeros (p0.newSig.toNat - (hk.size + rsa.length + cms.length)))
+      (f.drop (28 + hd.clen + s).toNat)).length < 2 ^ 62 := by
     rw [layout_length C hH]
     simp only [List.length_append, zeros, List.length_replicate, List.length_drop]
     omega
-  obtain ⟨tk, hopen⟩ := open_layout C E hH hk ki hki _ _ rsa _ (f.drop (28 + hd.clen + p.origSig).toNat) (p.tree E.num) nn _
-    hdz hus hzl hul hrsa hcmsl hc1 hc2 (by omega) hglen
+  obtain ⟨tk, hopen⟩ := open_layout fx C E hH hk ki hki _ _ rsa _ (f.drop (28 + hd.clen + s).toNat) tree _ _
+    hdz hus hzl hul (Nat.le_refl _) hrsa hcmsl hc1 hc2 hglen
   -- run `Open`
   rw [hg]
   refine ⟨⟨hk, tk.isSome⟩, ?_, rfl⟩
-  unfold verifyPlan
+  unfold verifyPlanG
   apply run_bind_of_ok C _ _ _ _ (by
     rw [hopen, run_ok_iff]
     exact ⟨by simp [Check.holds], rfl⟩)
   -- `Verify`
-  rw [tocRegion_layout C hk _ _ rsa _ _ (by omega) hul]
+  rw [tocRegion_layout C hk _ _ rsa _ _ (by omega) (by omega)]
   unfold verifyOpened
   simp only
   apply run_bind_of_ok C _ _ () _ (by
@@ -492,40 +942,46 @@ theorem sign_then_verify_core (C : Crypto) (E : Env) (hE : E.Laws) (hH : ∀ k b
     | true => rfl
     | false => exact absurd (umFiles_len E.num _ fs hfs b hbm' hbd') hblen
   obtain ⟨d, hdm, hoff, hlen, hsumd⟩ := flat_agrees_toc E.num hE.num _ fs (regFileKids_removeSigs E.num tks hrk) hfs b hbm' hbd
-  have hdm' : d ∈ dRefs E.num none p.doc1 := by rw [hPd]; exact mem_dRefs_doc1 E.num ras pre tas _ _ post d hdm
+  have hdm' : d ∈ dRefs E.num none p0.doc1 := by rw [hPd]; exact mem_dRefs_doc1 E.num ras pre tas _ _ post d hdm
+  obtain ⟨hfr, hsome⟩ := hmem d hdm' (by rw [hlen]; exact hblen)
   have hdsum : d.sum = some (b.astyle, b.adigest) := by
     rcases hsumd with h | ⟨h, _, _⟩
     · exact h
-    · exact absurd h (hsum p hprep d hdm' (by rw [hlen]; exact hblen))
-  have hr0 : (⟨d.name, b.offset, b.length, b.astyle, b.adigest⟩ : Ref) ∈ sortRefs (eRefs E.num p.doc1) := by
+    · exact absurd h hsome
+  have hr0 : (⟨d.name, b.offset, b.length, b.astyle, b.adigest⟩ : Ref) ∈ sortRefs (eRefs E.num p0.doc1) := by
     rw [mem_sortRefs]
     unfold eRefs
     rw [List.mem_filterMap]
     exact ⟨d, hdm', by simp [DRef.toRef?, hdsum, hoff, hlen]⟩
   have hchk := checkAllStream_ok C _ _ 0 hstream _ hr0
-  obtain ⟨s1, s2, s3⟩ := hm.sane b hbm
-  have hfr := hm.front b hbm hblen
+  -- where the member lies in the input
+  obtain ⟨kk, ee, _, _, c3, c4, _⟩ := hchk
+  dsimp only at c3 c4
+  obtain ⟨c4a, c4b⟩ := c4 hblen
+  simp only [List.length_drop] at c4b
+  rw [hoff] at hfr
   -- the member check on the written file
-  have hbody_len : body.length = (28 + (E.encode (p.tree E.num)).1.length) + p.newSig.toNat := by
+  have hbody_len : body.length = (28 + (E.encode tree).1.length) + p0.newSig.toNat := by
     rw [hbody]
     simp only [List.length_append, Hdr.enc_length, hH, zeros, List.length_replicate]
     omega
-  have key := member_check_after C f body (28 + hd.clen.toNat) p.origSig.toNat (28 + (E.encode (p.tree E.num)).1.length)
-    p.newSig.toNat hbody_len (by omega) (by omega) d.name b.astyle b.adigest b.offset b.length (by omega) hblen (by omega) hchk
-  have hxr : x'.ref = ⟨b.name, b.offset + (p.newSig - p.origSig), b.length, b.astyle, b.adigest⟩ := by
+  have key := member_check_after C f body (28 + hd.clen.toNat) s.toNat (28 + (E.encode tree).1.length)
+    p0.newSig.toNat hbody_len (by omega) (by omega) d.name b.astyle b.adigest b.offset b.length (by omega) hblen (by omega)
+    (checkAllStream_ok C _ _ 0 hstream _ hr0)
+  have hxr : x'.ref = ⟨b.name, b.offset + (p0.newSig - s), b.length, b.astyle, b.adigest⟩ := by
     unfold XFile.ref FileAcc.ref
     rw [← hbx]
-    have hw : w64 (b.offset + (p.newSig - p.origSig)) = b.offset + (p.newSig - p.origSig) := w64_id (by unfold inI64; omega)
+    have hw : w64 (b.offset + (p0.newSig - s)) = b.offset + (p0.newSig - s) := w64_id (by unfold inI64; omega)
     simp [FileAcc.shiftIf, hbd, FileAcc.shift, hδ, hw]
-  have hlay : layout C hk (E.encode (p.tree E.num)).1 (E.encode (p.tree E.num)).2 rsa
-      (cms ++ zeros (p.newSig.toNat - (hk.size + rsa.length + cms.length))) (f.drop (28 + hd.clen + p.origSig).toNat) =
-      body ++ f.drop (28 + hd.clen.toNat + p.origSig.toNat) := by
+  have hlay : layout C hk (E.encode tree).1 (E.encode tree).2 rsa
+      (cms ++ zeros (p0.newSig.toNat - (hk.size + rsa.length + cms.length))) (f.drop (28 + hd.clen + s).toNat) =
+      body ++ f.drop (28 + hd.clen.toNat + s.toNat) := by
     rw [hbody]
-    have : (28 + hd.clen + p.origSig).toNat = 28 + hd.clen.toNat + p.origSig.toNat := by omega
+    have : (28 + hd.clen + s).toNat = 28 + hd.clen.toNat + s.toNat := by omega
     simp [layout, List.append_assoc, this]
   rw [hxr, hlay]
-  have e1 : (p.newSig - p.origSig) = ((p.newSig.toNat : Int) - (p.origSig.toNat : Int)) := by omega
-  have e2 : ((28 + (E.encode (p.tree E.num)).1.length : Nat) : Int) = 28 + ((E.encode (p.tree E.num)).1.length : Int) := by omega
+  have e1 : (p0.newSig - s) = ((p0.newSig.toNat : Int) - (s.toNat : Int)) := by omega
+  have e2 : ((28 + (E.encode tree).1.length : Nat) : Int) = 28 + ((E.encode tree).1.length : Int) := by omega
   have := key.1
   rw [← e1, e2] at this
   -- the name is not looked at
